@@ -25,7 +25,8 @@ RULE = ("complete enumeration of the stated token sequences / truncations / perm
         "was exercised)")
 ASSUMPTIONS = ["documented errors = ValueError, TypeError and their subclasses (AddressValueError, "
                "NetmaskValueError)", "per-call CPU budget 2 s (sweeps: 30 s and at most ~quadratic growth)"]
-REQUIRED = ["returned_and_reaccepted", "documented_error", "config_returned", "sweep_ok"]
+REQUIRED = ["returned_and_reaccepted", "documented_error", "config_returned", "sweep_ok",
+            "option_returned"]
 KF_UNNAMED = "C20:Acl:empty_text_gives_unnamed_acl_whose_text_is_rejected"
 
 PLATFORMS = ("ios", "nxos", "asa")
@@ -98,6 +99,9 @@ def units(tier, seed):
                 out.append(dict(kind="config", platform=plat, lines=li, bang=bang))
     out.append(dict(kind="config_misc"))
     for plat in ("ios", "nxos"):
+        for opt in OPTIONS:
+            out.append(dict(kind="options", platform=plat, option=opt))
+    for plat in ("ios", "nxos"):
         out.append(dict(kind="long_valid", platform=plat))
     for i in range(len(sweeps())):
         out.append(dict(kind="sweep", idx=i))
@@ -132,6 +136,8 @@ def run_unit(unit, ctx):
         _config(unit, ctx)
     elif k == "config_misc":
         _config_misc(ctx)
+    elif k == "options":
+        _options(unit["platform"], unit["option"], ctx)
     elif k == "long_valid":
         _long_valid(unit["platform"], ctx)
     elif k == "sweep":
@@ -145,6 +151,8 @@ def replay(case, ctx):
         config_call(case["func"], case["platform"], case["text"], ctx)
     elif case["kind"] == "sweep":
         _sweep(case["idx"], ctx)
+    elif case["kind"] == "option_call":
+        option_call(case["target"], case["platform"], case["text"], case["option"], case["value"], ctx)
 
 
 # ------------------------------------------------------------------------------------------------
@@ -329,6 +337,65 @@ def _config_misc(ctx):
         for plat in ("ios", "nxos"):
             for func in ("acls", "aces", "addrgroups"):
                 config_call(func, plat, text, ctx)
+
+
+# ----------------------------------------------------------- text-valued keyword arguments
+
+OPTIONS = ["group_by", "indent", "version", "names", "name", "note"]
+OPT_TEXT = ["", " ", "= ", "=", "*** ", "+++ ", "** ", "(", ")", "[", "]", "? ", "\\", ".*", "$", "^",
+            "|", "{1}", "=== (", "a|b", "(?P<x>", "\\1", "%s", "{}", "{0}", "\t", "\n", "x y", "１２",
+            "15.2(4)M", "9.3(8)", "16", "A", "-mgmt", "0"]
+OPT_BODIES = ["remark = web\npermit tcp any any eq 80\nremark *** db (x)\ndeny ip any any\nremark [a] + ?",
+              "remark (\n10 permit ip any any\n20 remark \\\n30 deny ip any any"]
+
+
+def option_call(target, platform, text, option, value, ctx):
+    """One constructor / function call with arbitrary text in one text-valued keyword argument."""
+    import cisco_acl
+
+    ctx.ev()
+    case = dict(kind="option_call", target=target, platform=platform, text=text, option=option,
+                value=value)
+    kw = {option: [value] if option == "names" else value}
+    try:
+        with cpu_alarm(3.0):
+            res = getattr(cisco_acl, target)(text, platform=platform, **kw)
+            objs = res if isinstance(res, list) else [res]
+            for o in objs:
+                _ = o.line
+                if target == "Acl" and option == "group_by":
+                    o.ungroup()
+                    o.group(value)
+                    _ = o.line
+    except (ValueError, TypeError):
+        ctx.out("documented_error")
+        return
+    except HarnessTimeout:
+        ctx.viol(f"{target}:{option}:cpu_budget_exceeded", case, "more than 3 s CPU", "quick")
+        return
+    except Exception as ex:  # noqa
+        ctx.viol(f"{target}:{option}:undocumented_exception:{type(ex).__name__}", case, repr(ex),
+                 "objects or ValueError/TypeError")
+        return
+    ctx.out("option_returned")
+    ctx.nt((target, platform, option, value, text))
+
+
+def _options(platform, option, ctx):
+    head = "ip access-list extended A" if platform == "ios" else "ip access-list A"
+    ghead = "object-group network G" if platform == "ios" else "object-group ip address G"
+    for value in OPT_TEXT:
+        for body in OPT_BODIES:
+            acl_text = head + "\n" + "\n".join(" " + x for x in body.split("\n"))
+            cfg = (f"{ghead}\n host 10.0.0.1\n{acl_text}\ninterface Ethernet1\n ip access-group A in\n"
+                   f"{head}2\n permit ip any any")
+            targets = [("Acl", acl_text), ("AceGroup", body), ("acls", cfg), ("aces", cfg),
+                       ("addrgroups", cfg), ("AddrGroup", f"{ghead}\n host 10.0.0.1"),
+                       ("Ace", "permit tcp any any eq 80"), ("Remark", "remark x"),
+                       ("Address", "host 10.0.0.1")]
+            for target, text in targets:
+                option_call(target, platform, text, option, value, ctx)
+    ctx.sample("options", dict(platform=platform, option=option, values=len(OPT_TEXT)))
 
 
 # ---------------------------------------------------------------------------------------- sweeps
